@@ -16,7 +16,7 @@ for id in $IDS; do
   for seed in 1 77; do
     for p in 1 4 16 1 16; do
       i=$((i+1))
-      (GOMAXPROCS=$p "$D/bin/simcheck" hashes $id --count $N --seed $seed --verif "$V" > "$D/$id.$seed.$i.txt" 2>&1) &
+      (GOMAXPROCS=$p "$D/bin/simcheck" hashes $id --count $N --seed $seed --verif "$V" 2>&1 | cat > "$D/$id.$seed.$i.txt") &  # through a pipe: C12 programs open /dev/fd/1 with O_TRUNC
     done
     wait
     ref="$D/$id.$seed.$((i-4)).txt"
